@@ -22,6 +22,7 @@ starting a line with `//@`:
 
   //@struct <file> <Name>      real struct/enum definition, attributes and doc comments dropped
   //@const <file> <NAME>       real const item
+  //@include <path under /verif> shared ghost text (spec functions, lemmas), inlined verbatim
   //@fields <file> <Struct> f1 f2 ...   the real struct reduced to the named fields (real types)
 
 `prove`: signature and body are copied byte for byte; only the inserted ghost text (wrapped in
@@ -208,7 +209,7 @@ class Source:
         return start, ob, cb
 
     def find_typedef(self, name):
-        m = re.search(r"^[ \t]*(pub(\s*\([^)]*\))?\s+)?(struct|enum)\s+%s\b" % re.escape(name), self.bl, re.M)
+        m = re.search(r"^[ \t]*(pub(\s*\([^)]*\))?\s+)?(struct|enum|type)\s+%s\b" % re.escape(name), self.bl, re.M)
         if not m:
             raise AnchorLost("type %s not found in %s" % (name, self.relpath))
         depth = 0
@@ -429,6 +430,12 @@ def generate(template_path, twin=False):
             continue
         words = ln[3:].split()
         kind = words[0]
+        if kind == "include":
+            # shared ghost text (spec functions, lemmas) kept once under /verif
+            inc = os.path.join(os.path.dirname(os.path.dirname(os.path.abspath(__file__))), words[1])
+            out.append(open(inc).read())
+            i += 1
+            continue
         if kind in ("struct", "const"):
             s = src(words[1])
             a, b = (s.find_typedef if kind == "struct" else s.find_const)(words[2])
